@@ -46,8 +46,23 @@ REACH_NOTE = "vacuity: every obligation must discharge at least one assertion; p
 OBLIGATIONS.append(dict(
     name="C11.d (known finding C11-1) a rollup's exit root goes A, B, A: the update that brings the rollup exit tree back to an already recorded root must be recorded",
     harness=L + "ZZVerif_C11_ExitRootRevert", known_finding="C11-1", bounds="rollup 1, any distinct non-zero A and B"))
+def _kinds(ks):
+    v = 0
+    for k in reversed(ks):
+        v = v * 5 + k
+    return v
+
+
+KN = {0: "info update", 1: "root announcement", 2: "verify batches", 3: "verify batches (trusted)", 4: "initial root"}
+for ks, tiers in (([0, 0], ("quick", "thorough")), ([0, 2, 1], ("quick", "thorough")), ([3, 0, 4], ("quick", "thorough")), ([2, 3, 0, 0], ("thorough",)),
+                  ([1, 0, 1, 2], ("thorough",)), ([4, 0, 0, 0], ("thorough",))):
+    OBLIGATIONS.append(dict(
+        name="C11.e log appender: logs [%s] of one block become events in order, arguments in the right fields, positions increasing with the log index" % ", ".join(KN[k] for k in ks),
+        harness=L + "ZZVerif_C11_Appender", params={"KINDS": _kinds(ks), "N": len(ks)}, tiers=tiers, reach=["end"], time_limit_s=1500,
+        bounds="all argument values, all increasing log indexes (32 bit), all transaction indexes (16 bit; logs may share a transaction)"))
 ASSUMPTIONS = ["verified exit roots are fresh: the rollup exit tree never returns to a root it has recorded before (outside this assumption: known finding C11-1)",
                "Keccak as uninterpreted function + collision-freeness for store keys", "SQL model of SQLite",
                "the L1 contract never emits the same global exit root twice (UNIQUE column) and announces roots only after a leaf exists",
                "reference = transliteration of DepositContractBase and of the rollup manager's getRollupExitRoot over 4 rollups"]
-OUTSIDE = "generated log parsers; RollupID = 0; InitL1InfoRootMap events"
+ASSUMPTIONS.append("C11.e: the generated contract bindings are modelled (Parse<Event> decodes indexed arguments from topics and the others from data words, as UnpackLog does); natively the real bindings run")
+OUTSIDE = "RollupID = 0; InitL1InfoRootMap events in the processor; fetching of logs from the node (C05)"
